@@ -1217,12 +1217,27 @@ func (r *Runner) checkDurable(k int) {
 	os.RemoveAll(cp)
 	os.MkdirAll(cp, 0o755)
 	defer os.RemoveAll(cp)
-	for _, f := range DirFiles(e.Dir) {
-		b, err := os.ReadFile(e.Dir + "/" + f)
-		if err != nil {
-			continue // removed concurrently
+	what := "a copy of the directory"
+	if e.FS != nil && e.FS.KeepData && !e.Cfg.NoSync {
+		// Power-loss view: only what successful Syncs made durable (the
+		// round reported success with syncing enabled, so its footer and
+		// segments must be part of it).
+		e.FS.mu.Lock()
+		trace := append([]FOp{}, e.FS.Trace...)
+		e.FS.mu.Unlock()
+		what = "the durable image (content as of each file's last successful Sync)"
+		for n, c := range BuildImage(trace, CrashImage{Point: len(trace) - 1, Torn: -1, Kind: "none"}, false) {
+			os.WriteFile(cp+"/"+n, c, 0o600)
 		}
-		os.WriteFile(cp+"/"+f, b, 0o600)
+		r.cnt("durable.sync_images", 1)
+	} else {
+		for _, f := range DirFiles(e.Dir) {
+			b, err := os.ReadFile(e.Dir + "/" + f)
+			if err != nil {
+				continue // removed concurrently
+			}
+			os.WriteFile(cp+"/"+f, b, 0o600)
+		}
 	}
 	so := e.Cfg.StoreOptions()
 	so.CollectionOptions = e.Cfg.CollectionOptions()
@@ -1244,16 +1259,16 @@ func (r *Runner) checkDurable(k int) {
 	})
 	r.cnt("durable.copies_reopened", 1)
 	if err != nil {
-		r.viol("durable", "copy-not-openable", errClass(err.Error()), fmt.Sprintf("after a round that reported success (store at prefix %d) a copy of the directory cannot be opened/read: %v", k, err))
+		r.viol("durable", "copy-not-openable", errClass(err.Error()), fmt.Sprintf("after a round that reported success (store at prefix %d) %s cannot be opened/read: %v", k, what, err))
 		return
 	}
 	ks := e.World.Prefixes(t.Hash())
 	if len(ks) == 0 {
-		r.notPrefixViol("durable", "copy of the directory", t)
+		r.notPrefixViol("durable", what, t)
 		return
 	}
 	if ks[len(ks)-1] < k {
-		r.viol("durable", "copy-older-than-store", "", fmt.Sprintf("the store exposes prefix %d but a copy of its directory reopens to prefix %d", k, ks[len(ks)-1]))
+		r.viol("durable", "copy-older-than-store", "", fmt.Sprintf("the store exposes prefix %d after a round that reported success, but %s reopens to prefix %d", k, what, ks[len(ks)-1]))
 	}
 }
 
